@@ -454,6 +454,11 @@ func (e *Enc) unop(fr *Frame, st *State, x *ssa.UnOp) *Val {
 		if g, ok := x.X.(*ssa.Global); ok && e.w.neverStored(g) {
 			return e.zero(t)
 		}
+		if g, ok := x.X.(*ssa.Global); ok {
+			if c := e.w.constGlobal(g); c != nil {
+				return e.constVal(c)
+			}
+		}
 		e.assume(st, fmt.Sprintf("(not (= %s 0))", a.term()))
 		v := e.loadAt(st, a.term(), t, a.Comp)
 		v = e.nameVal(v, sanitize(x.Name()))
